@@ -1,6 +1,8 @@
 package rg
 
 import (
+	"fmt"
+	"os"
 	"go/token"
 	"go/types"
 	"strings"
@@ -41,7 +43,7 @@ var rR16r = RuleRef{Name: "R16r", Doc: "raft ready loop (raftexample serveChanne
 			}
 		}
 	}
-	of := c.orderFlow(fn, func(in ssa.Instruction) bool { return sel != nil && in == ssa.Instruction(sel) }, true, "C|Save", "C|saveSnap", "C|Append", "C|Send", "C|publishEntries", "C|maybeTriggerSnapshot", "C|Advance", "C|ApplySnapshot")
+	of := c.orderFlow(fn, func(in ssa.Instruction) bool { return sel != nil && in == ssa.Instruction(sel) }, true, "C|Save", "C|saveSnap", "C|Append", "C|Send", "C|publishEntries", "C|maybeTriggerSnapshot", "C|Advance", "C|ApplySnapshot", "T|call:IsEmptySnap")
 	type need struct {
 		at   string
 		all  []string
@@ -81,6 +83,43 @@ var rR16r = RuleRef{Name: "R16r", Doc: "raft ready loop (raftexample serveChanne
 			}
 		}
 		c.Add("R16r", fnName(fn), nd.what, fn.Pos(), len(bad) == 0 && matched > 0, strings.Join(uniq(bad), "; ")+map[bool]string{true: "", false: " (call not found: undecided)"}[matched > 0])
+	}
+	// the snapshot of a Ready goes to disk (file and WAL marker) before its hard state and entries: a crash between the two
+	// must not leave a WAL whose committed prefix starts behind a snapshot that does not exist yet
+	{
+		matched := 0
+		var bad []string
+		for _, b := range fn.Blocks {
+			for _, in := range b.Instrs {
+				ci, ok := in.(ssa.CallInstruction)
+				if !ok || callName(ci) != "Save" {
+					continue
+				}
+				if _, isDefer := in.(*ssa.Defer); isDefer {
+					continue
+				}
+				states, live := of.States(in)
+				if !live {
+					continue
+				}
+				matched++
+				for _, st := range states {
+					if os.Getenv("RG_DBG_R16R") != "" {
+						fmt.Fprintf(os.Stderr, "state at Save: %v\n", st)
+					}
+					empty := st["T|call:IsEmptySnap"]
+					for f := range st {
+						if strings.HasPrefix(f, "T|pure:IsEmptySnap(") {
+							empty = true
+						}
+					}
+					if !st["C|saveSnap"] && !empty {
+						bad = append(bad, c.pos(in.Pos())+": a path reaches wal.Save with a snapshot in the Ready that was not saved yet")
+					}
+				}
+			}
+		}
+		c.Add("R16r", fnName(fn), "a received snapshot is saved before the hard state and the entries of the same Ready", fn.Pos(), len(bad) == 0 && matched > 0, strings.Join(uniq(bad), "; ")+map[bool]string{true: "", false: " (call not found: undecided)"}[matched > 0])
 	}
 	// wal.Save call is unconditional w.r.t. the entries: it must receive rd.HardState and rd.Entries of the same Ready
 	for _, b := range fn.Blocks {
